@@ -189,6 +189,7 @@ fn run_fs(c: &FsCase) -> Outcome {
 		throttle_change: None,
 		empty_errs: false,
 		throttle_via_field: false,
+		job_churn: None,
 	};
 	let w2 = world.clone();
 	let fail = c.fail_watch;
